@@ -11,7 +11,7 @@ from . import common as cm
 from . import sexp2coq as sx
 from .c09 import finish
 
-LT = ["'a", "'b", "'T", "'x"]
+LT = ["'a", "'b", "'T", "'x", "'_ŠČ1", "'_ŠČ0"]
 TY = ['T', 'U', 'V', 'A', 'Elem', 'K', 'W', '_ŠČ1', '_ŠČ0', 'Item', 'X9']
 CT = ['N', 'M', 'LEN', 'K0']
 
@@ -137,6 +137,8 @@ CORPUS = [
     'impl<_ŠČ1, _ŠČ0: D<G = _ŠČ1>> K for (_ŠČ1, _ŠČ0) { fn f() -> _ŠČ0 { _ŠČ1::mk() } }',
     "impl<'T, T: D<G = GA>> K<'T> for &'T T { fn f(x: &'T T) -> T { T::mk() } }",
     'impl<A, B, C, D0, E, F, G, H, I, J, K1, L: Dx<G = GA>> K for (A, B, C, D0, E, F, G, H, I, J, K1, L) { type Out = (L, K1, J); }',
+    # fixed finding F35: lifetimes spelled like the reserved names in another order, with an inline outlives bound
+    "impl<'_ŠČ1: '_ŠČ0, '_ŠČ0, T: D<G = GA>> K<'_ŠČ1, '_ŠČ0> for T { fn f(x: &'_ŠČ0 T) -> &'_ŠČ1 T { T::mk() } }",
     # fixed finding F32: names spelled like a parameter after a qualified self / heading a multi-segment expression path
     'impl<T: D<G = GA> + Tr, const N: usize> K<W<{ N }>> for T { fn f() -> usize { <T>::N + N::A as usize + N } type Q = <T>::T; fn g() -> usize { <u8 as T>::N } }',
 ]
